@@ -823,6 +823,7 @@ func runC20Once(c *Ctx) {
 		default:
 			c.ok(construct, vs.Pos(), fmt.Sprintf("%d call site(s) of (*externalCommand).run reachable, outside any loop, no two of them or of the calls leading to them on one path", total))
 		}
+		c20EveryRunStep(c, rule, vs)
 	}
 }
 
